@@ -605,16 +605,13 @@ impl WebSocketContext {
 
     /// Try to decode one message frame. May return None.
     fn read_message_frame(&mut self, stream: &mut impl Read) -> Result<Option<Message>> {
-        if let Some(frame) = self
-            .frame
-            .read_frame(
-                stream,
-                self.config.max_frame_size,
-                matches!(self.role, Role::Server),
-                self.config.accept_unmasked_frames,
-            )
-            .check_connection_reset(self.state)?
-        {
+        let frame = self.frame.read_frame(
+            stream,
+            self.config.max_frame_size,
+            matches!(self.role, Role::Server),
+            self.config.accept_unmasked_frames,
+        );
+        if let Some(frame) = self.check_connection_reset(frame)? {
             if !self.state.can_read() {
                 return Err(Error::Protocol(ProtocolError::ReceivedAfterClosing));
             }
@@ -772,7 +769,18 @@ impl WebSocketContext {
         }
 
         trace!("Sending frame: {frame:?}");
-        self.frame.buffer_frame(stream, frame).check_connection_reset(self.state)
+        let res = self.frame.buffer_frame(stream, frame);
+        self.check_connection_reset(res)
+    }
+
+    /// Translate "Connection reset by peer" into `ConnectionClosed` if appropriate.
+    /// The connection is over then.
+    fn check_connection_reset<T>(&mut self, res: Result<T>) -> Result<T> {
+        let res = res.check_connection_reset(self.state);
+        if let Err(Error::ConnectionClosed) = res {
+            self.state = WebSocketState::Terminated;
+        }
+        res
     }
 
     /// Replace `additional_send` if it is currently a `Pong` message.
